@@ -60,6 +60,7 @@ def _simple_regime(rng, cfg):
 def _core(rng, cfg, nt):
     devices = G.std_devices()
     G.set_data(devices[2], 0x3C0, bytes(rng.getrandbits(8) for _ in range(0x80)))
+    G.host_call_blocks(devices[2])
     regs = _simple_regime(rng, cfg)
     regs['pc'] = G.CODE + 4 * rng.randrange(0, 64)
     tb = rng.random()
